@@ -157,7 +157,7 @@ pub fn def() -> PropDef {
     PropDef {
         id: "C11",
         level: "exploration",
-        rule: "input = valid image (synthesized or library-written, V3/V4) x 1-3 corruptions restricted to fields that permissive open does not validate (start sector and size of streams and of the root, FAT cells inside mini-stream/data chains and free cells, MiniFAT cells, tail->head cycles of data, mini-stream and mini chains), kept only if permissive open accepts (rate in classes); then a mutation history of 1-8 ops chosen from what the library itself lists: handle scripts with write/write_all/set_len(+-)/seek/read/flush on listed streams, create stream/storage under listed storages, remove stream/storage/recursive, setters, flush, drop; finally handles on up to six listed streams are used (read, seek, write, set_len, flush) after their CompoundFile has been dropped. A quarter of the inputs run on a fixed-size backend (write returns Ok(0) at the end of the space). Oracle: every call returns Ok or Err, no panic (index, overflow, assertion, unwrap), worker CPU budget 20 CPU-s per case confirmed alone under RLIMIT_CPU. Non-trivial = accepted input for which the independent checker reports >=1 violated rule and >=1 mutating call reached the library; distinct = distinct case JSON. Thorough tier adds a libFuzzer campaign on the same oracle.",
+        rule: "input = valid image (synthesized or library-written, V3/V4) x 1-3 corruptions restricted to fields that permissive open does not validate (start sector and size of streams and of the root, FAT cells inside mini-stream/data chains and free cells, MiniFAT cells, tail->head cycles of data, mini-stream and mini chains), kept only if permissive open accepts (rate in classes); then a mutation history of 1-8 ops chosen from what the library itself lists: handle scripts with write/write_all/set_len(+-)/seek/read/flush on listed streams, create stream/storage under listed storages, remove stream/storage/recursive, setters, flush, drop, iterators kept alive around handle writes; finally handles on up to six listed streams are used (read, seek, write, set_len, flush) after their CompoundFile has been dropped. A quarter of the inputs run on a fixed-size backend (write returns Ok(0) at the end of the space). Oracle: every call returns Ok or Err, no panic (index, overflow, assertion, unwrap), no self-deadlocking lock request (always-on lock observer), worker CPU budget 20 CPU-s per case confirmed alone under RLIMIT_CPU. Non-trivial = accepted input for which the independent checker reports >=1 violated rule and >=1 mutating call reached the library; distinct = distinct case JSON. Thorough tier adds a libFuzzer campaign on the same oracle.",
         assumptions: &["checked build: debug assertions and overflow checks on (profile 'checked'); thorough also runs the release-semantics build"],
         quick_cases: 6000,
         thorough_cases: 150000,
